@@ -60,8 +60,18 @@ def gen_script(w, rng, maxops=40):
     ins(first)
     ops.append(("run",))
     look(rng.randrange(2, 6))
-    choice = rng.randrange(4)
-    if choice == 0 and rest:
+    choice = rng.randrange(6)
+    if choice >= 4 and rest:
+        # purge everything, insert a *different* input set (not a superset of the first), re-run: results must be those of
+        # the new inputs alone (nothing of the purged generation may survive in any index)
+        ops += [("purgein",), ("purgeout",), ("purgeinternal",)]
+        second = rest[: rng.randrange(1, len(rest) + 1)]
+        if choice == 5:
+            second = second + first[: len(first) // 3]
+        ins(second)
+        ops.append(("run",))
+        look(rng.randrange(2, 6))
+    elif choice == 0 and rest:
         # grow the input, purge derived relations, re-run
         ins(rest[: rng.randrange(1, len(rest) + 1)])
         ops += [("purgeout",), ("purgeinternal",), ("run",)]
